@@ -208,8 +208,11 @@ def d11_signature(inst, o):
     for h in o.get("prune", {}).get("hints", []):
         if h.get("kind") == "dynamic" and not h["kept"] and h["prop"] in ge_props:
             c = h["cand"]
-            if c.get("t") == "range" and c["hi"]["t"] == "inc" and h["value"].get("k") == "int" and c["hi"]["v"].get("k") == "int" and G.unlimbs(h["value"]["v"]) > G.unlimbs(c["hi"]["v"]["v"]):
-                return True
+            if c.get("t") == "range" and c["hi"]["t"] == "inc" and h["value"].get("k") == c["hi"]["v"].get("k"):
+                k = h["value"]["k"]          # the discarded value lies ABOVE the inverted upper bound (integers, strings, floats alike)
+                if k == "int" and G.unlimbs(h["value"]["v"]) > G.unlimbs(c["hi"]["v"]["v"]): return True
+                if k == "str" and "".join(h["value"]["v"]).encode() > "".join(c["hi"]["v"]["v"]).encode(): return True
+                if k == "float" and h["value"]["v"] > c["hi"]["v"]["v"]: return True
             if c.get("t") in ("single", "multiple", "impossible"):   # the inverted range intersected with other filters
                 return True
     return False
